@@ -1330,11 +1330,22 @@ def from_str(x, prec, rnd=round_fast):
 
     man, exp = str_to_man_exp(x, base=10)
 
-    # XXX: appropriate cutoffs & track direction
+    # XXX: appropriate cutoffs
     # note no factors of 5
-    if abs(exp) > 400:
-        s = from_int(man, prec+10)
-        s = mpf_mul(s, mpf_pow_int(ften, exp, prec+10), prec, rnd)
+    # Use the approximate route only when the power of ten is much larger
+    # than the digit string (otherwise the exact route is cheap)
+    if abs(exp) > 400 and abs(exp) > bitcount(abs(man)):
+        if rnd == round_nearest:
+            s = from_int(man, prec+10)
+            s = mpf_mul(s, mpf_pow_int(ften, exp, prec+10), prec, rnd)
+        else:
+            # Directed rounding: round every step in the same direction
+            if man < 0:
+                prnd = negative_rnd[rnd]
+            else:
+                prnd = rnd
+            s = from_int(man, prec+10, rnd)
+            s = mpf_mul(s, mpf_pow_int(ften, exp, prec+10, prnd), prec, rnd)
     else:
         if exp >= 0:
             s = from_int(man * 10**exp, prec, rnd)
